@@ -107,33 +107,61 @@ func (o *c10Oracle) Probe(pt string, zeit, subd int, wdt float64, g *G, w *herme
 // already taken by its predecessor (same-day pair, dense schedules) follows the predecessor on the next day.
 // scheduled holds every action dated inside the period; trailing ones may legitimately fall behind the end date.
 func (o *c10Oracle) matchSchedule(kind string, scheduled []Day, executed []Day, slack int, prevExec Day) {
+	o.matchScheduleSilent(kind, scheduled, nil, executed, slack, prevExec)
+}
+
+// matchScheduleSilent: silent[i] marks a scheduled action that leaves no entry in the event log (a tillage of depth 0:
+// nothing to mix). It still takes its turn in the schedule; the day on which it was "carried out" is unknown within
+// its window, so the action behind it is accepted anywhere between its own date and the day after that window.
+func (o *c10Oracle) matchScheduleSilent(kind string, scheduled []Day, silent []bool, executed []Day, slack int, prevExec Day) {
 	end := o.w.Cfg.End
-	if len(executed) > len(scheduled) {
-		o.violate("exactly-once", "action-executed-more-than-scheduled:"+kind, 0, fmt.Sprintf("%d %s actions scheduled inside the period %v, %d executed %v", len(scheduled), kind, isoList(scheduled), len(executed), isoList(executed)), nil)
+	nLoud := 0
+	for i := range scheduled {
+		if silent == nil || !silent[i] {
+			nLoud++
+		}
+	}
+	if len(executed) > nLoud {
+		o.violate("exactly-once", "action-executed-more-than-scheduled:"+kind, 0, fmt.Sprintf("%d %s actions scheduled inside the period %v, %d executed %v", nLoud, kind, isoList(scheduled), len(executed), isoList(executed)), nil)
 		return
 	}
+	k := 0 // next executed entry
+	fuzzy := false
 	for i := range scheduled {
 		s := scheduled[i]
 		lo, hi := s, s+Day(slack)
 		if prevExec >= lo {
-			lo, hi = prevExec+1, prevExec+1
-			if lo < s {
-				lo, hi = s, s+Day(slack)
+			if fuzzy {
+				hi = prevExec + 1
+				if hi < s+Day(slack) {
+					hi = s + Day(slack)
+				}
+			} else {
+				lo, hi = prevExec+1, prevExec+1
+				if lo < s {
+					lo, hi = s, s+Day(slack)
+				}
 			}
-			if i < len(executed) {
+			if k < len(executed) {
 				o.hit("reach.same-day-pair")
 			}
 		}
-		if i >= len(executed) {
+		if silent != nil && silent[i] {
+			prevExec, fuzzy = hi, true
+			o.hit("reach.silent-action")
+			continue
+		}
+		if k >= len(executed) {
 			// not carried out: only acceptable when its latest allowed day lies behind the end date
 			if hi <= end {
-				o.violate("exactly-once", "action-missing:"+kind, int(s), fmt.Sprintf("%s action %d scheduled for %s was never carried out (%d scheduled inside the period, %d executed: %v)", kind, i+1, s.ISO(), len(scheduled), len(executed), isoList(executed)), nil)
+				o.violate("exactly-once", "action-missing:"+kind, int(s), fmt.Sprintf("%s action %d scheduled for %s was never carried out (%d scheduled inside the period, %d executed: %v)", kind, i+1, s.ISO(), nLoud, len(executed), isoList(executed)), nil)
 				return
 			}
 			prevExec = hi
 			continue
 		}
-		e := executed[i]
+		e := executed[k]
+		k++
 		if e < lo || e > hi {
 			cls := "action-late:" + kind
 			if e < s {
@@ -142,7 +170,7 @@ func (o *c10Oracle) matchSchedule(kind string, scheduled []Day, executed []Day, 
 			o.violate("on-time", cls, int(e), fmt.Sprintf("%s action %d scheduled for %s was carried out on %s (allowed %s..%s)", kind, i+1, s.ISO(), e.ISO(), lo.ISO(), hi.ISO()), nil)
 			return
 		}
-		prevExec = e
+		prevExec, fuzzy = e, false
 	}
 }
 
@@ -203,17 +231,22 @@ func (o *c10Oracle) Finish(out *RunOutcome, res *Result) {
 	}
 	// ---- tillage
 	var tsched []Day
+	var tsilent []bool
 	for _, t := range w.Till {
 		if t.Day >= start && t.Day <= end {
 			tsched = append(tsched, t.Day)
+			tsilent = append(tsilent, t.Depth == 0)
 		} else if t.Day < start {
 			o.hit("reach.pre-start-action")
 		}
 	}
-	o.matchSchedule("tillage", tsched, days(by["tillage"]), 1, 0)
+	o.matchScheduleSilent("tillage", tsched, tsilent, days(by["tillage"]), 1, 0)
 	if len(by["tillage"]) <= len(tsched) {
 		k := 0
 		for _, t := range w.Till {
+			if t.Depth == 0 {
+				continue
+			}
 			if t.Day >= start && t.Day <= end && k < len(by["tillage"]) {
 				e := by["tillage"][k]
 				k++
@@ -393,7 +426,7 @@ func genC10Schedule(r *RNG, w *World) {
 	w.IrrOn = r.Bool(0.9)
 	for _, d := range mk(r.Range(0, 25), 2, 200, r.Bool(0.4)) {
 		if !inGrowing(w.Rot, d) && !inGrowing(w.Rot, d+1) && !inGrowing(w.Rot, d+2) {
-			w.Till = append(w.Till, TillEvent{Day: d, Depth: r.PickI([]int{5, 10, 12, 15, 20, 25, 30}), Type: r.PickI([]int{1, 1, 2})})
+			w.Till = append(w.Till, TillEvent{Day: d, Depth: r.PickI([]int{5, 10, 12, 15, 20, 25, 30, 0}), Type: r.PickI([]int{1, 1, 2})})
 		}
 	}
 }
